@@ -28,6 +28,7 @@ class Scenario:
         self.down = None        # the one node currently killed or stopped
         self.how = None
         self.ops = []
+        self.entries = {}       # entry point -> number of writes
 
     def ev(self, **kw):
         self.trace.append(kw)
@@ -42,11 +43,14 @@ class Scenario:
             content = "c%d" % rid
         self.content[rid] = None if delete else content
         self.ev(ev="call", id=rid, via=via, k=key, **{"del": delete})
-        op = {"op": "cfg_route_del" if delete else "cfg_route_set", "data_id": key, "value": content, "timeout_ms": timeout_ms}
+        # the entry point of the write varies: the node's real HTTP handler, its real gRPC service, or ConfigRoute directly
+        entry = ("route", "http", "grpc")[(rid + self.seed) % 3]
+        self.entries[entry] = self.entries.get(entry, 0) + 1
+        op = {"op": "cfg_%s_%s" % (entry, "del" if delete else "set"), "data_id": key, "value": content, "timeout_ms": timeout_ms}
         r = self.c.nodes[via].call(op, timeout=timeout_ms / 1000.0 + 4)
         res = "ok" if r.get("res") == "ok" else "err"
         self.ev(ev="ret", id=rid, res=res)
-        self.ops.append({"id": rid, "via": via, "k": key, "del": delete, "content": content, "res": r.get("res"), "err": str(r.get("err", ""))[:80]})
+        self.ops.append({"id": rid, "via": via, "entry": entry, "k": key, "del": delete, "content": content, "res": r.get("res"), "err": str(r.get("err", ""))[:80]})
         return res
 
     def fault(self, n, how, settle_leader=True):
@@ -395,14 +399,23 @@ def run(tier):
     c.cov["scenarios"] = len(scs)
     c.cov["scenarios_failed_to_run"] = len(errs)
     c.cov["acknowledged_writes"] = acked
+    ent = {}
+    for sc in scs:
+        for k, v in sc.entries.items():
+            ent[k] = ent.get(k, 0) + v
+    c.cov["writes_by_entry_point"] = ent
+    if min(ent.get("http", 0), ent.get("grpc", 0), ent.get("route", 0)) < 5:
+        raise ToolError("an entry point of the writes (HTTP handler / gRPC service / ConfigRoute) was hardly used: %s" % ent)
     c.cov["faults_injected"] = faults
     c.cov["values_read_at_quiescence"] = reads
     if acked < 5 * len(scs):
         raise ToolError("too few acknowledged writes (%d): the cluster does not work, check is vacuous" % acked)
     c.assumptions += [
         "cluster = three `rnverif node run` processes in cluster mode: real start-up wiring, Raft auto-init / auto-join, real "
-        "gRPC services on loopback ports (Raft RPCs and routed writes over real connections); no HTTP layer: writes enter "
-        "through ConfigRoute::set_config / del_config (what the HTTP and gRPC handlers call), reads through ConfigCmd::GET",
+        "gRPC services on loopback ports (Raft RPCs and routed writes over real connections); writes enter in turn through "
+        "the node's real HTTP handler (/nacos/v1/cs/configs of the in-process application), through its real gRPC service "
+        "(ConfigPublishRequest / ConfigRemoveRequest on a fresh connection to the node's own port) and through ConfigRoute::set_config / "
+        "del_config directly (what both handlers call); reads through ConfigCmd::GET",
         "faults: SIGKILL + restart, SIGSTOP + SIGCONT of one node at a time (a majority stays alive), leader targeted half of "
         "the time; clients are sequential (one request outstanding), a fault may fall between any two requests",
         "Raft itself is abstracted to one committed sequence in the specification (async-raft is not re-verified)",
